@@ -82,7 +82,7 @@ def getbs(data, size):
         return r
     ln, used = r[1], r[2]
     if ln >= size:
-        return ('bad',)          # what the format check is meant to do; the C lets ln = 2^32-1 through
+        return ('bad',)          # the format rule (the reference snapshot let ln = 2^32-1 through: uint32 wrap)
     if len(data) - used < ln:
         return ('eof',)
     return ('ok', bytes(data[used:used + ln]), used + ln)
